@@ -421,6 +421,8 @@ pub struct Sim {
     hard_faults: u32,
     /// paths on which a sticky write fault fired: every further write fails with the same errno (the disk stays full / broken)
     broken_write_paths: BTreeMap<String, i32>,
+    /// how often each pipe-like path has been opened for reading
+    pipe_opens: BTreeMap<String, u32>,
     addr_ids: BTreeMap<usize, u32>,
     pct_points: Vec<u64>,
     sync_demotions: u32,
@@ -878,6 +880,7 @@ pub fn start(cfg: SimCfg, dec: Decider, fatal_fd: i32) {
         probe_idx: 0,
         hard_faults: 0,
         broken_write_paths: BTreeMap::new(),
+        pipe_opens: BTreeMap::new(),
         addr_ids: BTreeMap::new(),
         pct_points: vec![],
         sync_demotions: 0,
@@ -1418,6 +1421,19 @@ pub fn hook_open(path: &[u8], flags: i32) -> Option<Result<i32, i32>> {
     }
     // faults at open time are decided before the call has any effect on the file system
     let acc = flags & libc::O_ACCMODE;
+    if acc == libc::O_RDONLY && !s.quiet && s.cfg.pipe_like_paths.iter().any(|x| p.contains(x.as_str())) {
+        // a FIFO whose producer wrote once and closed: the first reader gets the data, a second open for reading
+        // finds no writer and blocks for good
+        let n = s.pipe_opens.entry(p.clone()).or_insert(0);
+        *n += 1;
+        if *n > 1 {
+            s.block_seq += 1;
+            let seq = s.block_seq;
+            s.slots[me].state = TState::Blocked { addr: usize::MAX - oidx as usize, deadline: None, seq };
+            s.ev(me, Pt::Block, 0, 1);
+            s.hand_over(me, true);
+        }
+    }
     let mut limit = None;
     let damage_ok = s.cfg.trunc_paths.is_empty() || s.cfg.trunc_paths.iter().any(|t| p.contains(t.as_str()));
     let trunc_ok = acc == libc::O_RDONLY && s.fault_enabled(F_TRUNC_READ) && damage_ok;
